@@ -297,7 +297,11 @@ func (c *fctx) expr(e ast.Expr) string {
 		switch o := obj.(type) {
 		case *types.Var:
 			if o.Parent() == o.Pkg().Scope() {
-				c.fail(e, "package-level variable %s", o.Name())
+				if o.Pkg().Path() != c.t.curPkg || !c.t.globalOK[o] {
+					c.fail(e, "package-level variable %s", o.Name())
+				}
+				c.fi.usesGlobals = true
+				return "G_." + san(o.Name())
 			}
 			if c.natVars[o] {
 				return "(" + c.name(o) + " : Int)"
@@ -305,6 +309,23 @@ func (c *fctx) expr(e ast.Expr) string {
 			return c.name(o)
 		case *types.Const:
 			return c.constLit(e, types.TypeAndValue{Type: o.Type(), Value: o.Val()})
+		case *types.Func:
+			// a top-level function used as a value
+			ci := c.t.fns[o]
+			if ci == nil || ci.recv != nil {
+				c.fail(e, "function value %s", o.Name())
+			}
+			if ci.state == 1 {
+				c.fail(e, "recursive reference to %s", o.Name())
+			}
+			c.emitDep(ci)
+			if ci.failed != "" {
+				c.fail(e, "function value %s, which is not translated", o.Name())
+			}
+			if ci.usesPrims || ci.usesGlobals || len(ci.mutated) > 0 {
+				c.fail(e, "function value %s with hidden parameters", o.Name())
+			}
+			return c.t.qual(c.fi, ci)
 		}
 		c.fail(e, "identifier %s", x.Name)
 	case *ast.SelectorExpr:
@@ -608,6 +629,16 @@ func (c *fctx) cond(e ast.Expr) string {
 					}
 					return "(" + v + " = none)"
 				}
+				if _, isSlice := lt.Underlying().(*types.Slice); isSlice {
+					// nil and empty slices are one value in the model (a function whose behaviour depends on the
+					// difference shows up in the gendriver correspondence)
+					c.fi.notes = appendOnce(c.fi.notes, "a slice is compared with nil: nil and empty slices are identified")
+					v := c.expr(other)
+					if x.Op == token.NEQ {
+						return "(" + v + " ≠ [])"
+					}
+					return "(" + v + " = [])"
+				}
 				if in := derefNamed(lt); in != nil {
 					if _, ok := in.Underlying().(*types.Interface); ok && len(c.t.ifaceImpl[in]) > 0 {
 						v := c.expr(other)
@@ -881,4 +912,13 @@ func usesErrIdentity(info *types.Info, body ast.Node) bool {
 		return !found
 	})
 	return found
+}
+
+func appendOnce(l []string, s string) []string {
+	for _, x := range l {
+		if x == s {
+			return l
+		}
+	}
+	return append(l, s)
 }
